@@ -55,7 +55,8 @@ SCHEMA = {
         "core": "obj:ParserCore", "renderer": "opaque", "linkify": "opaque", "utils": "opaque", "helpers": "opaque",
     },
     # abstract view of a token in a children list: only the fields the typographic rules look at
-    "TokenA": {"type": "atom", "info": "atom", "content": "atom", "level": "int", "nesting": "int"},
+    "TokenA": {"type": "atom", "info": "atom", "content": "atom", "level": "int", "nesting": "int", "children": "atom"},
+    "StateCoreJ": {"tokens": "reclist:TokenA"},
     "_Result": {"ok": "bool", "pos": "int", "lines": "int", "str": "str"},
     "ParserBlock": {"ruler": "obj:Ruler"},
     "ParserInline": {"ruler": "obj:Ruler", "ruler2": "obj:Ruler"},
